@@ -32,7 +32,11 @@ where
     let mut next = Vec::new();
     loop {
         if todo[usize::from(c)].is_empty() {
-            c = c.checked_add(1).unwrap();
+            // Costs beyond the cost type's range are never queued: nothing left to explore.
+            let Some(c_next) = c.checked_add(1) else {
+                return Vec::new();
+            };
+            c = c_next;
             if usize::from(c) == todo.len() {
                 return Vec::new();
             }
